@@ -19,6 +19,7 @@ import (
 	"net/http"
 	"os"
 	"regexp"
+	"runtime"
 	"sort"
 	"strconv"
 	"strings"
@@ -32,6 +33,7 @@ import (
 	"google.golang.org/grpc"
 	"google.golang.org/grpc/codes"
 	"google.golang.org/grpc/encoding"
+	_ "google.golang.org/grpc/encoding/gzip" // grpc-go client side gzip (other engines register it as well)
 	"google.golang.org/grpc/metadata"
 	"google.golang.org/grpc/status"
 	"google.golang.org/protobuf/encoding/protojson"
@@ -118,6 +120,7 @@ func mutateMD(md metadata.MD, kind string) {
 
 // Rec is what the handler observed / did.
 type Rec struct {
+	Done   bool // the handler has returned
 	Ran    bool
 	MD     metadata.MD
 	Sent   int
@@ -184,9 +187,10 @@ type Env struct {
 	H1  *http.Client
 	H2  *http.Client
 
-	local, proxy *side
-	cur          *side
-	be           *backend.Backend
+	sides map[string]*side // by target + "|" + mux options
+	impl  vschema.Impl
+	cur   *side
+	be    *backend.Backend
 
 	mu      sync.Mutex
 	scripts map[string]*entry
@@ -201,39 +205,58 @@ func newEnv() (*Env, error) {
 	if err != nil {
 		return nil, err
 	}
-	e := &Env{Std: std, scripts: map[string]*entry{}}
-	impl := vschema.FuncImpl{U: e.unary, S: e.stream}
-	mux, err := std.NewMux(impl)
-	if err != nil {
-		return nil, err
-	}
-	if e.local, err = newSide(mux); err != nil {
-		return nil, err
-	}
+	e := &Env{Std: std, scripts: map[string]*entry{}, sides: map[string]*side{}}
+	e.impl = vschema.FuncImpl{U: e.unary, S: e.stream}
 	// the same handler on a real grpc.Server, reached through RegisterConn
-	if e.be, err = backend.Start("proto-be", true, backend.Svc{SD: std.SD, Impl: impl}); err != nil {
-		e.Close()
+	if e.be, err = backend.Start("proto-be", true, backend.Svc{SD: std.SD, Impl: e.impl}); err != nil {
 		return nil, fmt.Errorf("back-end: %w", err)
 	}
-	pmux, err := larking.NewMux()
-	if err != nil {
-		e.Close()
-		return nil, err
-	}
-	ctx, cancel := context.WithTimeout(context.Background(), 20*time.Second)
-	defer cancel()
-	if err := pmux.RegisterConn(ctx, e.be.CC); err != nil {
-		e.Close()
-		return nil, fmt.Errorf("RegisterConn: %w", err)
-	}
-	if e.proxy, err = newSide(pmux); err != nil {
-		e.Close()
-		return nil, err
-	}
-	e.use("")
 	e.H1 = wire.H1Client()
 	e.H2 = wire.H2CClient()
-	return e, nil
+	for _, target := range []string{"", "proxy"} {
+		if err := e.use(target, ""); err != nil {
+			e.Close()
+			return nil, err
+		}
+	}
+	return e, e.use("", "")
+}
+
+func muxOptions(opt string) ([]larking.MuxOption, error) {
+	switch opt {
+	case "":
+		return nil, nil
+	case "send64":
+		return []larking.MuxOption{larking.MaxSendMessageSizeOption(64)}, nil
+	case "send256":
+		return []larking.MuxOption{larking.MaxSendMessageSizeOption(256)}, nil
+	case "recv64":
+		return []larking.MuxOption{larking.MaxReceiveMessageSizeOption(64)}, nil
+	}
+	return nil, fmt.Errorf("unknown mux option set %q", opt)
+}
+
+// makeSide builds the mux for a target with the given options, its server
+// and its grpc-go client.
+func (e *Env) makeSide(target, opt string) (*side, error) {
+	opts, err := muxOptions(opt)
+	if err != nil {
+		return nil, err
+	}
+	var mux *larking.Mux
+	if target == "proxy" {
+		if mux, err = larking.NewMux(opts...); err != nil {
+			return nil, err
+		}
+		ctx, cancel := context.WithTimeout(context.Background(), 20*time.Second)
+		defer cancel()
+		if err := mux.RegisterConn(ctx, e.be.CC); err != nil {
+			return nil, fmt.Errorf("RegisterConn: %w", err)
+		}
+	} else if mux, err = e.Std.NewMux(e.impl, opts...); err != nil {
+		return nil, err
+	}
+	return newSide(mux)
 }
 
 func newSide(mux *larking.Mux) (*side, error) {
@@ -249,21 +272,26 @@ func newSide(mux *larking.Mux) (*side, error) {
 	return &side{Mux: mux, Srv: srv, CC: cc}, nil
 }
 
-// use selects the target of the next case.
-func (e *Env) use(target string) {
-	e.cur = e.local
-	if target == "proxy" {
-		e.cur = e.proxy
+// use selects the target (and mux options) of the next case.
+func (e *Env) use(target, opt string) error {
+	key := target + "|" + opt
+	sd := e.sides[key]
+	if sd == nil {
+		var err error
+		if sd, err = e.makeSide(target, opt); err != nil {
+			return err
+		}
+		e.sides[key] = sd
 	}
-	e.Mux, e.Srv, e.CC = e.cur.Mux, e.cur.Srv, e.cur.CC
+	e.cur = sd
+	e.Mux, e.Srv, e.CC = sd.Mux, sd.Srv, sd.CC
+	return nil
 }
 
 func (e *Env) Close() {
-	for _, sd := range []*side{e.local, e.proxy} {
-		if sd != nil {
-			sd.CC.Close()
-			sd.Srv.Close()
-		}
+	for _, sd := range e.sides {
+		sd.CC.Close()
+		sd.Srv.Close()
 	}
 	if e.be != nil {
 		e.be.Close()
@@ -451,6 +479,7 @@ func (e *Env) unary(ctx context.Context, md protoreflect.MethodDescriptor, in pr
 	}
 	inMD, _ := metadata.FromIncomingContext(ctx)
 	e.record(id, func(r *Rec) { r.Ran = true; r.MD = inMD.Copy() })
+	defer e.record(id, func(r *Rec) { r.Done = true })
 	e.headerOps(id, sc,
 		func(m metadata.MD) error { return grpc.SetHeader(ctx, m) },
 		func(m metadata.MD) error { return grpc.SendHeader(ctx, m) },
@@ -481,6 +510,7 @@ func (e *Env) stream(md protoreflect.MethodDescriptor, ss grpc.ServerStream) err
 	}
 	inMD, _ := metadata.FromIncomingContext(ss.Context())
 	e.record(id, func(r *Rec) { r.Ran = true; r.MD = inMD.Copy() })
+	defer e.record(id, func(r *Rec) { r.Done = true })
 	e.headerOps(id, sc, ss.SetHeader, ss.SendHeader, func(m metadata.MD) error { ss.SetTrailer(m); return nil })
 	for i := 0; i < sc.Replies; i++ {
 		if err := ss.SendMsg(newChunk(id, int32(i+1))); err != nil {
@@ -552,6 +582,15 @@ type Case struct {
 	// Hop are hop-by-hop (connection-specific) request headers of an HTTP/1
 	// front, sent in addition to ReqHdr: they must not become metadata.
 	Hop [][2]string `json:"hop,omitempty"`
+	// Opt selects mux options: "" defaults | "send64" | "send256"
+	// (MaxSendMessageSizeOption) | "recv64" (MaxReceiveMessageSizeOption).
+	Opt string `json:"opt,omitempty"`
+	// Hold: the (client- or bidi-streaming) client does not half-close; it
+	// keeps its send side open until it has received the status.
+	Hold bool `json:"hold,omitempty"`
+	// Gzip: request messages are compressed with grpc-encoding gzip (the mux
+	// then compresses the replies as well).
+	Gzip bool `json:"gzip,omitempty"`
 	// Target: "" = the handler is registered on the mux; "proxy" = it runs on a
 	// real grpc.Server that the mux reaches through RegisterConn.
 	Target string `json:"target,omitempty"`
@@ -586,7 +625,9 @@ type Obs struct {
 	DetErr       string
 	Replies      int
 	TrailersOnly bool
-	WebErr       string // framing problem of a gRPC-web body
+	WebErr       string   // framing problem of a gRPC-web body
+	WebKeys      []string // keys of the gRPC-web trailer frame as sent ("?malformed" for a line without colon)
+	Stuck        string   // a watchdog fired while the request was inside larking: goroutine excerpt
 	// client-visible metadata, lower-cased keys; -bin values still encoded
 	// for raw clients, decoded for grpc-go (BinDecoded)
 	MDHdr      map[string][]string
@@ -662,7 +703,9 @@ func (c *Case) reqHeaders(h http.Header, canonical bool) {
 // run executes the case and returns the client observation and the handler
 // record.
 func (e *Env) run(c *Case) (*Obs, Rec) {
-	e.use(c.Target)
+	if err := e.use(c.Target, c.Opt); err != nil {
+		return &Obs{Err: "environment: " + err.Error(), Timeout: true}, Rec{}
+	}
 	sc := c.Script
 	id := e.register(&sc)
 	var o *Obs
@@ -753,9 +796,33 @@ func (e *Env) doHTTPInproc(c *Case, id string) *Obs {
 }
 
 func (e *Env) sockDo(cl *http.Client, path string, h http.Header, body []byte) *Obs {
-	ctx, cancel := context.WithTimeout(context.Background(), sockTimeout)
+	return e.sockDoBody(cl, path, h, bytes.NewReader(body), sockTimeout)
+}
+
+// holdTimeout is the watchdog of calls whose client keeps its send side open
+// until the status arrives (observed: well under a millisecond).
+const holdTimeout = 10 * time.Second
+
+// stuckInLarking returns an excerpt of the goroutine dump when a request is
+// still inside the mux's gRPC serving code ("" otherwise).
+func stuckInLarking() string {
+	buf := make([]byte, 4<<20)
+	buf = buf[:runtime.Stack(buf, true)]
+	for _, g := range strings.Split(string(buf), "\n\n") {
+		if strings.Contains(g, "larking.(*Mux).serveGRPC") {
+			if len(g) > 3000 {
+				g = g[:3000]
+			}
+			return g
+		}
+	}
+	return ""
+}
+
+func (e *Env) sockDoBody(cl *http.Client, path string, h http.Header, body io.Reader, timeout time.Duration) *Obs {
+	ctx, cancel := context.WithTimeout(context.Background(), timeout)
 	defer cancel()
-	req, err := http.NewRequestWithContext(ctx, "POST", e.Srv.URL+path, bytes.NewReader(body))
+	req, err := http.NewRequestWithContext(ctx, "POST", e.Srv.URL+path, body)
 	if err != nil {
 		return &Obs{Err: "request: " + err.Error()}
 	}
@@ -813,7 +880,11 @@ func (o *Obs) setStatusText(code, msg, det string) {
 }
 
 func (e *Env) doGRPC(c *Case, id string) *Obs {
-	ctx, cancel := context.WithTimeout(context.Background(), sockTimeout)
+	timeout := sockTimeout
+	if c.Hold {
+		timeout = holdTimeout
+	}
+	ctx, cancel := context.WithTimeout(context.Background(), timeout)
 	defer cancel()
 	if len(c.ReqHdr) > 0 {
 		md := metadata.MD{}
@@ -827,6 +898,9 @@ func (e *Env) doGRPC(c *Case, id string) *Obs {
 	var opts []grpc.CallOption
 	if c.Codec == "json" {
 		opts = append(opts, grpc.ForceCodec(jsonCodec{})) // per call, nothing registered globally
+	}
+	if c.Gzip {
+		opts = append(opts, grpc.UseCompressor("gzip"))
 	}
 	o := &Obs{BinDecoded: true}
 	var hmd, tmd metadata.MD
@@ -844,7 +918,9 @@ func (e *Env) doGRPC(c *Case, id string) *Obs {
 		st, err = e.CC.NewStream(ctx, &grpc.StreamDesc{ClientStreams: md.IsStreamingClient(), ServerStreams: md.IsStreamingServer()}, full, opts...)
 		if err == nil {
 			if err = st.SendMsg(newChunk(id, 0)); err == nil || err == io.EOF {
-				st.CloseSend()
+				if !c.Hold {
+					st.CloseSend()
+				}
 				for {
 					m := vschema.NewMsg(chunkDesc())
 					if err = st.RecvMsg(m); err != nil {
@@ -874,6 +950,9 @@ func (e *Env) doGRPC(c *Case, id string) *Obs {
 	o.Details = st.Proto()
 	if err != nil && ctx.Err() != nil {
 		o.Timeout = true
+		if c.Hold {
+			o.Stuck = stuckInLarking()
+		}
 	}
 	return o
 }
@@ -892,12 +971,22 @@ func (c *Case) grpcBody(id string) []byte {
 	} else {
 		b, _ = proto.Marshal(newChunk(id, 0))
 	}
+	if c.Gzip {
+		return wire.Frame(wire.Gzip(b), true)
+	}
 	return wire.Frame(b, false)
+}
+
+func (c *Case) grpcHeaders(h http.Header) {
+	if c.Gzip {
+		h.Set("Grpc-Encoding", "gzip")
+	}
 }
 
 func (e *Env) doGRPCRaw(c *Case, id string) *Obs {
 	h := http.Header{"Content-Type": {c.grpcCT("application/grpc")}}
 	c.reqHeaders(h, true)
+	c.grpcHeaders(h)
 	if c.Script.WaitCtx {
 		h.Set("Grpc-Timeout", "20m")
 	}
@@ -921,7 +1010,21 @@ func (e *Env) doGRPCRaw(c *Case, id string) *Obs {
 func (e *Env) doGRPCH2C(c *Case, id string) *Obs {
 	h := http.Header{"Content-Type": {c.grpcCT("application/grpc")}, "Te": {"trailers"}}
 	c.reqHeaders(h, false)
-	o := e.sockDo(e.H2, e.Std.Full(c.Method), h, c.grpcBody(id))
+	c.grpcHeaders(h)
+	var o *Obs
+	if c.Hold {
+		// the request body stays open until the whole response (status
+		// included) has been read
+		pr, pw := io.Pipe()
+		go pw.Write(c.grpcBody(id)) //nolint
+		o = e.sockDoBody(e.H2, e.Std.Full(c.Method), h, pr, holdTimeout)
+		pw.Close()
+		if o.Timeout {
+			o.Stuck = stuckInLarking()
+		}
+	} else {
+		o = e.sockDo(e.H2, e.Std.Full(c.Method), h, c.grpcBody(id))
+	}
 	if o.Hdr == nil {
 		return o
 	}
@@ -963,6 +1066,7 @@ func (o *Obs) decodeWeb(text bool) {
 		return ""
 	}
 	if wr.HasTrail {
+		o.WebKeys = sortedKeys(wr.Trailer)
 		o.MDTrl = wr.Trailer
 		if v, ok := wr.Trailer["grpc-status"]; ok && len(v) > 0 {
 			o.setStatusText(v[0], get(wr.Trailer, "grpc-message"), get(wr.Trailer, "grpc-status-details-bin"))
@@ -980,6 +1084,7 @@ func (o *Obs) decodeWeb(text bool) {
 func (e *Env) doWebInproc(c *Case, id string) *Obs {
 	h := http.Header{}
 	c.reqHeaders(h, true)
+	c.grpcHeaders(h)
 	if c.Script.WaitCtx {
 		h.Set("Grpc-Timeout", "20m")
 	}
@@ -1002,6 +1107,7 @@ func (e *Env) doWebSock(c *Case, id string) *Obs {
 	}
 	h := http.Header{"Content-Type": {c.grpcCT(ct)}}
 	c.reqHeaders(h, false)
+	c.grpcHeaders(h)
 	o := e.sockDo(e.H1, e.Std.Full(c.Method), h, body)
 	o.decodeWeb(c.webText())
 	return o
